@@ -103,7 +103,7 @@ def handleCase (f : List String) : Except String Verdict := do
   match f with
   | [id, mode, hist, probe, fresh, diff, impl] =>
     if impl == "invalid" then throw "outside-domain: request outside the structured vocabulary"
-    if mode != "0" && mode != "1" then throw "outside-domain: mode"
+    if mode != "0" && mode != "1" && mode != "2" then throw "outside-domain: mode"
     let hs ← if hist == "-" then pure [] else
       match (hist.splitOn ";").mapM parseReq with
       | some l => pure l
@@ -119,7 +119,7 @@ def handleCase (f : List String) : Except String Verdict := do
       | none => "noresponse"
     let served := hs.filter (·.bad == 0)
     let tags :=
-      [s!"hist{min hs.length 8}", if mode == "1" then "keepalive" else "conn-per-request"] ++
+      [s!"hist{min hs.length 8}", if mode == "1" then "keepalive" else if mode == "2" then "concurrent-mix" else "conn-per-request"] ++
       (if p.flash.isSome then ["probe-flash"] else []) ++
       (if served.any (·.flash.isSome) then ["hist-flash"] else []) ++
       (if hs.any (·.bad != 0) then ["hist-malformed"] else []) ++
